@@ -432,6 +432,7 @@ PROGRAMS = [
 
 def run_sim(prog, chooser):
     k = Kernel(chooser, max_steps=5000)
+    k.eager_timeouts = False       # here a timeout stands for "nothing else can run" (the allowed outcome sets assume it)
     net = O.Network()
     O.set_kernel(k)
     O._Named._count = 0
